@@ -9,7 +9,7 @@
    flag.  Peers are labels; `wc_keys` gives their Kademlia keys (SHA-256, 256 bits MSB first). *)
 From Coq Require Import List NArith Bool.
 From V.C14 Require Model.
-From V.C17 Require Model.
+From V.C17 Require Model Timed Ingress.
 From V.C16 Require Import Model.
 Import ListNotations.
 Open Scope N_scope.
@@ -23,11 +23,17 @@ Record wcfg := mkWC {
   wc_keys : list (N * key);          (* peer label -> key, the local peer included *)
   wc_pool : list N;                  (* the peers whose distance ranks a lookup is given *)
   wc_K : nat;                        (* bucket size *)
-  wc_scfg : V.C17.Model.cfg;
-  wc_ttl : N;                        (* record ttl (logical) *)
+  wc_scfg : V.C17.Model.cfg;         (* MemoryStoreConfig *)
+  wc_ttl : N;                        (* Config::record_ttl *)
   wc_auto : bool;                    (* RoutingTableUpdateMode::Automatic (false = Manual) *)
-  wc_vauto : bool                    (* IncomingRecordValidationMode::Automatic (false = Manual) *)
+  wc_vauto : bool;                   (* IncomingRecordValidationMode::Automatic (false = Manual) *)
+  wc_interval : N;                   (* provider_refresh_interval *)
+  wc_npub : N                        (* number of public addresses of the local node *)
 }.
+
+(* the configuration of C17's model of the loop around the store *)
+Definition kc_of (wc : wcfg) : V.C17.Ingress.kcfg :=
+  V.C17.Ingress.mkK (wc_scfg wc) (wc_interval wc) (wc_vauto wc) (wc_ttl wc) (g_k (wc_g wc)) (wc_npub wc).
 
 Definition pkey (wc : wcfg) (p : N) : key :=
   match aget p (wc_keys wc) with Some k => k | None => [] end.
@@ -40,16 +46,15 @@ Fixpoint peer_of (keys : list (N * key)) (k : key) : N :=
   | (p, k') :: t => if V.C14.Model.key_eqb k' k then p else peer_of t k
   end.
 
-(* w_prov: MemoryStore::local_providers (key -> quorum of the start_providing call);
-   w_timers: MemoryStore::pending_provider_refresh, the keys whose refresh timer is armed (a multiset:
-   every put_local_provider arms one more) *)
-Record world := mkW {
-  w_st : st; w_rt : table; w_store : V.C17.Model.store;
-  w_prov : list (N * quorum); w_timers : list N
-}.
+(* the store of the loop is C17's model: the MemoryStore maps (V.C17.Model), the stored quorums of the
+   local providers and the refresh futures with their deadlines on explicit clock readings
+   (V.C17.Timed), driven the way kademlia/mod.rs drives it (V.C17.Ingress: `kstep`) *)
+Record world := mkW { w_st : st; w_rt : table; w_ks : V.C17.Ingress.kstate }.
 
-Fixpoint rem1 (x : N) (l : list N) : list N :=
-  match l with [] => [] | h :: t => if h =? x then t else h :: rem1 x t end.
+Definition w_store (w : world) : V.C17.Model.store := V.C17.Timed.ts_store (V.C17.Ingress.ks_t (w_ks w)).
+Definition w_clock (w : world) : N := V.C17.Ingress.ks_now (w_ks w).
+Definition w_timers (w : world) : list V.C17.Timed.timer := V.C17.Timed.ts_timers (V.C17.Ingress.ks_t (w_ks w)).
+Definition w_quorum (w : world) : list (N * N) := V.C17.Timed.ts_quorum (V.C17.Ingress.ks_t (w_ks w)).
 
 (* ---- the routing table as kademlia/mod.rs uses it ---- *)
 Definition rt_op (wc : wcfg) (t : table) (o : V.C14.Model.op) : table :=
@@ -102,52 +107,163 @@ Definition rt_learn (wc : wcfg) (s : st) (t : table) (ps : list N) : table :=
 Definition seeds_of (wc : wcfg) (t : table) (target : key) : list N :=
   map (fun n => peer_of (wc_keys wc) (V.C14.Model.n_key n))
       (V.C14.Model.closest (lkey wc) t target (N.to_nat (g_k (wc_g wc)))).
+(* XOR-distance ranks: the rank of a peer among the local peer and the pool, by distance to the target.
+   Peers without a key keep the default BIG + p of Model.lcfg *)
+Definition closer (wc : wcfg) (target : key) (x p : N) : bool :=
+  V.C14.Model.klt (V.C14.Model.kxor target (pkey wc x)) (V.C14.Model.kxor target (pkey wc p)).
 Definition rank_of (wc : wcfg) (target : key) (p : N) : N :=
-  N.of_nat (length (filter (fun q => V.C14.Model.klt (V.C14.Model.kxor target (pkey wc q))
-                                                    (V.C14.Model.kxor target (pkey wc p)))
-                           (wc_pool wc))).
-Definition dists_of (wc : wcfg) (target : key) : list N := map (rank_of wc target) (wc_pool wc).
+  N.of_nat (length (filter (fun x => closer wc target x p) (g_local (wc_g wc) :: wc_pool wc))).
+Definition has_key (wc : wcfg) (p : N) : bool :=
+  match aget p (wc_keys wc) with Some _ => true | None => false end.
+Definition dist1 (wc : wcfg) (target : key) (p : N) : N :=
+  if has_key wc p then rank_of wc target p else BIG + p.
+Definition nlabels (wc : wcfg) : nat := N.to_nat (fold_left N.max (map fst (wc_keys wc)) 0 + 1).
+Definition dists_of (wc : wcfg) (target : key) : list N :=
+  map (fun i => dist1 wc target (N.of_nat i)) (seq 0 (nlabels wc)).
 
 (* ---- the store as kademlia/mod.rs uses it ---- *)
-Definition REC_LEN : N := 1.
-Definition local_record (wc : wcfg) (rk : N) : V.C17.Model.record :=
-  V.C17.Model.mkRec rk LOCAL_REC REC_LEN (Some (wc_ttl wc)).
-Definition INBOUND_KEY : N := 250.
+
+(* provider ids of the store model: the local peer is LOCAL_ID = 0 *)
+Definition pid_of (wc : wcfg) (p : N) : N := if p =? g_local (wc_g wc) then V.C17.Model.LOCAL_ID else p + 1.
+Definition peer_of_pid (wc : wcfg) (i : N) : N := if i =? V.C17.Model.LOCAL_ID then g_local (wc_g wc) else i - 1.
+
+(* quorum codes of the store model: 0 All, 1 One, n + 1 = N(n) *)
+Definition qcode (qr : quorum) : N := match qr with QAll => 0 | QOne => 1 | QN n => n + 1 end.
+Definition qdecode (c : N) : quorum := match c with 0 => QAll | 1 => QOne | _ => QN (c - 1) end.
+
+Definition abs_exp (ks : V.C17.Ingress.kstate) (e : option N) : option N := option_map (fun d => V.C17.Ingress.ks_now ks + d) e.
+
+(* the future with this id reads a request from an inbound substream *)
+Definition inbound_read (s : st) (id : N) : bool :=
+  match find_fut id (futs s) with
+  | Some f => match f_kind f, f_q f with FInRead, None => true | _, _ => false end
+  | None => false
+  end.
+Definition sender (s : st) (id : N) : N :=
+  match find_fut id (futs s) with Some f => f_peer f | None => 0 end.
 
 (* ---- user-level events ---- *)
 Inductive ucmd :=
-| UCFind | UCPut (qr : quorum) (rk : N) | UCProv (qr : quorum) (rk : N) | UCGet (qr : quorum) (rk : N)
-| UCGetProv.
+| UCFind
+| UCPut (qr : quorum) (rk len : N) (exp : option N)   (* key, length of the value, expiry from now (None: record_ttl) *)
+| UCProv (qr : quorum) (rk : N)
+| UCGet (qr : quorum) (rk : N)
+| UCGetProv (rk : N).
 
-(* a request of a remote peer, read from an inbound substream *)
+(* a request of a remote peer, read from an inbound substream; target = the hash of the key asked for *)
 Inductive inreq :=
-| IFindNode (target : key)                  (* FIND_NODE; target = the hash of the key asked for *)
-| IPutValue (rk : N)                        (* PUT_VALUE of a record with key rk *)
-| IGetValue (rk : N) (target : key)         (* GET_VALUE for key rk (target = its hash) *)
-| IGetProviders (target : key)
-| IAddProvider (valid : bool).              (* ADD_PROVIDER; valid = one provider, the sender itself *)
+| IFindNode (target : key)
+| IPutValue (rk len pub ttl : N)            (* publisher code (0 none, i + 1 provider id i), ttl of the wire (0 none) *)
+| IGetValue (rk : N) (target : key)
+| IGetProviders (rk : N) (target : key)
+| IAddProvider (rk : N) (provs : list (N * N * N)) (target : key).   (* (peer, addresses, decodes) as sent *)
 
 Inductive uev :=
 | UCmd (q : N) (c : ucmd) (target : key)
-| UPutToPeers (q : N) (qr : quorum) (rk : N) (given : list N)
-| UStoreRecord (rk : N)
+| UPutToPeers (q : N) (qr : quorum) (rk len pub : N) (exp : option N) (upd : bool) (given : list N)
+| UStoreRecord (rk len pub : N) (exp : option N)
 | UAddKnownPeer (p : N) (addr : bool)
-| UStopProviding (rk : N)
-| UFire (q rk : N) (target : key)           (* a refresh timer of the store for key rk fires; q = the id the
-                                               loop draws from the counter if a refresh is due *)
+| UStopProviding (rk : N) (target : key)
+| UFire (q rk wait : N) (target : key)      (* `wait` passes, then a completed refresh future of key rk is taken by
+                                               store.next_action(); q = the id the loop draws if a refresh is due *)
+| UAge (d : N)                              (* time passes *)
 | UInReq (id : N) (rq : inreq)              (* the read future of inbound substream id delivers a request *)
 | UEv (e : ev).
 
-Definition msg_of_req (rq : inreq) : msg :=
+Definition lrank (wc : wcfg) (target : key) : N := rank_of wc target (g_local (wc_g wc)).
+
+Definition wire_provs (wc : wcfg) (target : key) (provs : list (N * N * N)) : list (N * N * N * N) :=
+  map (fun x : N * N * N => (pid_of wc (fst (fst x)), rank_of wc target (fst (fst x)), snd (fst x), snd x)) provs.
+
+(* the event of C17's loop model a user event is for the store *)
+Definition kev_of (wc : wcfg) (w : world) (u : uev) : option V.C17.Ingress.kev :=
+  let ks := w_ks w in
+  match u with
+  | UCmd _ (UCPut _ rk len exp) _ => Some (V.C17.Ingress.KCmdPutRecord rk LOCAL_REC len (abs_exp ks exp))
+  | UCmd _ (UCProv qr rk) t => Some (V.C17.Ingress.KCmdStartProviding rk (lrank wc t) (qcode qr))
+  | UCmd _ (UCGet _ rk) _ => Some (V.C17.Ingress.KCmdGetRecord rk)
+  | UCmd _ (UCGetProv rk) _ => Some (V.C17.Ingress.KCmdGetProviders rk)
+  | UPutToPeers _ _ rk len pub exp upd _ => Some (V.C17.Ingress.KCmdPutToPeers rk LOCAL_REC len pub (abs_exp ks exp) upd)
+  | UStoreRecord rk len pub exp => Some (V.C17.Ingress.KCmdStoreRecord rk LOCAL_REC len pub (abs_exp ks exp))
+  | UStopProviding rk t => Some (V.C17.Ingress.KCmdStopProviding rk (lrank wc t))
+  | UInReq id rq =>
+      if inbound_read (w_st w) id then
+        let from := pid_of wc (sender (w_st w) id) in
+        match rq with
+        | IFindNode _ => None
+        | IPutValue rk len pub ttl => Some (V.C17.Ingress.KPutValue from rk LOCAL_REC len pub ttl)
+        | IGetValue rk _ => Some (V.C17.Ingress.KGetValue from rk)
+        | IGetProviders rk _ => Some (V.C17.Ingress.KGetProviders from rk)
+        | IAddProvider rk provs t => Some (V.C17.Ingress.KAddProvider from rk (wire_provs wc t provs))
+        end
+      else None
+  | _ => None
+  end.
+
+Definition age (ks : V.C17.Ingress.kstate) (d : N) : V.C17.Ingress.kstate := V.C17.Ingress.mkKS (V.C17.Ingress.ks_t ks) (V.C17.Ingress.ks_now ks + d) (V.C17.Ingress.ks_dead ks).
+
+(* store.next_action() yields one completed refresh future: the first one of key rk whose deadline has passed *)
+Fixpoint take_due (now rk : N) (l : list V.C17.Timed.timer) : option (list V.C17.Timed.timer) :=
+  match l with
+  | [] => None
+  | t :: r => if (V.C17.Timed.tm_key t =? rk) && V.C17.Timed.is_due now t then Some r
+              else option_map (cons t) (take_due now rk r)
+  end.
+
+(* ... and the loop handles it: RefreshProvider with the stored quorum when the key is still provided
+   (put_local_provider again, which arms the next future), nothing otherwise *)
+Definition fire1 (wc : wcfg) (ks : V.C17.Ingress.kstate) (rk dist : N) : option (V.C17.Ingress.kstate * option N) :=
+  if V.C17.Ingress.ks_dead ks then None else
+  match take_due (V.C17.Ingress.ks_now ks) rk (V.C17.Timed.ts_timers (V.C17.Ingress.ks_t ks)) with
+  | None => None
+  | Some rest =>
+      let ks1 := V.C17.Ingress.with_ts ks (V.C17.Timed.mkT (V.C17.Timed.ts_store (V.C17.Ingress.ks_t ks)) (V.C17.Timed.ts_quorum (V.C17.Ingress.ks_t ks)) rest) in
+      match V.C17.Timed.find_q rk (V.C17.Timed.ts_quorum (V.C17.Ingress.ks_t ks)) with
+      | Some qc => Some (V.C17.Ingress.settle (kc_of wc) (fst (V.C17.Ingress.do_top (kc_of wc) ks1 (V.C17.Timed.TPutLocal rk dist qc))), Some qc)
+      | None => Some (V.C17.Ingress.settle (kc_of wc) ks1, None)
+      end
+  end.
+
+(* the store side of a user event: new state of the store, what the store answered *)
+Definition kside (wc : wcfg) (w : world) (u : uev) : V.C17.Ingress.kstate * V.C17.Ingress.kout :=
+  match kev_of wc w u with
+  | Some ke => V.C17.Ingress.kstep (kc_of wc) (w_ks w) ke
+  | None =>
+      match u with
+      | UAge d => (age (w_ks w) d, V.C17.Ingress.KNone)
+      | UFire _ rk wait t =>
+          match fire1 wc (age (w_ks w) wait) rk (lrank wc t) with
+          | Some (ks', _) => (ks', V.C17.Ingress.KNone)
+          | None => (w_ks w, V.C17.Ingress.KNone)
+          end
+      | _ => (w_ks w, V.C17.Ingress.KNone)
+      end
+  end.
+
+Definition is_hit (o : V.C17.Ingress.kout) : bool := match o with V.C17.Ingress.KRec (Some _) => true | _ => false end.
+
+(* the providers the store hands to get_providers / serves in a GET_PROVIDERS reply *)
+Definition known_provs (ks : V.C17.Ingress.kstate) (rk : N) : list V.C17.Model.prov :=
+  snd (V.C17.Model.get_providers (V.C17.Timed.ts_store (V.C17.Ingress.ks_t ks)) rk (V.C17.Ingress.ks_now ks)).
+Definition addr_ids (n : N) : list N := map N.of_nat (seq 0 (N.to_nat n)).
+Definition kprov_of (wc : wcfg) (l : list V.C17.Model.prov) : list (N * list N) :=
+  map (fun p => (peer_of_pid wc (V.C17.Model.p_id p), addr_ids (V.C17.Model.p_naddr p))) l.
+
+(* ADD_PROVIDER is accepted (IncomingProvider is raised) when exactly one provider decodes and it is the sender *)
+Definition add_valid (wc : wcfg) (from : N) (target : key) (provs : list (N * N * N)) : bool :=
+  match V.C17.Ingress.decoded_provs (g_k (wc_g wc)) (wire_provs wc target provs) with
+  | [(p, _, _)] => p =? from
+  | _ => false
+  end.
+
+Definition msg_of_req (wc : wcfg) (w : world) (id : N) (rq : inreq) : msg :=
   match rq with
   | IFindNode _ => MFindNode []
-  | IPutValue _ => MPutValue
+  | IPutValue _ _ pub _ => if pub =? V.C17.Ingress.PUB_INVALID then MInvalid else MPutValue
   | IGetValue _ _ => MGetRecord true None []
-  | IGetProviders _ => MGetProviders true [] []
-  | IAddProvider v => MAddProvider v
+  | IGetProviders _ _ => MGetProviders true [] []
+  | IAddProvider _ provs t => MAddProvider (add_valid wc (pid_of wc (sender (w_st w) id)) t provs)
   end.
-Definition req_key (rq : inreq) : N :=
-  match rq with IPutValue rk | IGetValue rk _ => rk | _ => INBOUND_KEY end.
 
 (* which peer disconnect_peer is called for, read from the state before the handler runs *)
 Definition disconnects (s : st) (e : ev) : option N :=
@@ -174,126 +290,99 @@ Definition msg_peers (m : msg) : option (list N) :=
   | _ => None
   end.
 
-(* the table / store side of a base event *)
-Definition side_k (wc : wcfg) (w : world) (e : ev) (inkey : N) : table * V.C17.Model.store :=
+(* the table side of a base event *)
+Definition side (wc : wcfg) (w : world) (e : ev) : table :=
   let s := w_st w in
   let t0 := match disconnects s e with Some p => rt_disconnect wc (w_rt w) p | None => w_rt w end in
   match e with
   | EEstablished p _ =>
       match aget p (conn s) with
-      | Some _ => (t0, w_store w)
-      | None => (rt_op wc t0 (V.C14.Model.OConnected (pkey wc p) true), w_store w)
+      | Some _ => t0
+      | None => rt_op wc t0 (V.C14.Model.OConnected (pkey wc p) true)
       end
-  | EDialFail p => (rt_op wc t0 (V.C14.Model.ODialFailure (pkey wc p) true), w_store w)
+  | EDialFail p => rt_op wc t0 (V.C14.Model.ODialFailure (pkey wc p) true)
   | EFut id (RRead m) =>
       match find_fut id (futs s) with
       | Some f =>
           if res_ok (f_kind f) (RRead m) then
-            match f_q f, trunc_msg (wc_g wc) m with
-            | Some _, m' =>
-                (match msg_peers m' with
-                 | Some ps => if wc_auto wc then rt_learn wc s t0 ps else t0
-                 | None => t0
-                 end, w_store w)
-            | None, MPutValue =>
-                (* an inbound PUT_VALUE is stored at once in the Automatic validation mode only; in the
-                   Manual mode the user receives IncomingRecord and decides (store_record) *)
-                (t0, if wc_vauto wc
-                     then V.C17.Model.put (wc_scfg wc) (w_store w) (local_record wc inkey)
-                     else w_store w)
-            | None, _ => (t0, w_store w)
+            match f_q f, msg_peers (trunc_msg (wc_g wc) m) with
+            | Some _, Some ps => if wc_auto wc then rt_learn wc s t0 ps else t0
+            | _, _ => t0
             end
-          else (t0, w_store w)
-      | None => (t0, w_store w)
+          else t0
+      | None => t0
       end
-  | _ => (t0, w_store w)
+  | _ => t0
   end.
-
-Definition side (wc : wcfg) (w : world) (e : ev) : table * V.C17.Model.store := side_k wc w e INBOUND_KEY.
-
-(* the future with this id reads a request from an inbound substream *)
-Definition inbound_read (s : st) (id : N) : bool :=
-  match find_fut id (futs s) with
-  | Some f => match f_kind f, f_q f with FInRead, None => true | _, _ => false end
-  | None => false
-  end.
-
-(* MemoryStore::next_action: a timer is armed for rk, and the key is still provided *)
-Definition fire_due (w : world) (rk : N) : option quorum :=
-  if nmem rk (w_timers w) then aget rk (w_prov w) else None.
 
 (* elaboration of a user event into the Model.v event, and the new table / store *)
-Definition elab (wc : wcfg) (w : world) (u : uev) : ev * table * V.C17.Model.store :=
+Definition elab (wc : wcfg) (w : world) (u : uev) : ev * table * V.C17.Ingress.kstate :=
+  let ks' := fst (kside wc w u) in
   match u with
   | UCmd q c target =>
       let seeds := seeds_of wc (w_rt w) target in
       let dists := dists_of wc target in
-      match c with
-      | UCFind => (ECmd q CFindNode dists seeds, w_rt w, w_store w)
-      | UCPut qr rk =>
-          (ECmd q (CPutRecord qr) dists seeds, w_rt w,
-           V.C17.Model.put (wc_scfg wc) (w_store w) (local_record wc rk))
-      | UCProv qr _ => (ECmd q (CStartProviding qr) dists seeds, w_rt w, w_store w)
-      | UCGet qr rk =>
-          let '(st', r) := V.C17.Model.get (w_store w) rk 0 in
-          (ECmd q (CGetRecord qr (match r with Some _ => true | None => false end)) dists seeds, w_rt w, st')
-      | UCGetProv => (ECmd q CGetProviders dists seeds, w_rt w, w_store w)
-      end
-  | UPutToPeers q qr rk given =>
-      let '(t', ps) := rt_filter wc (w_rt w) given in (EPutToPeers q qr ps, t', w_store w)
-  | UStoreRecord rk =>
-      (ENop, w_rt w, V.C17.Model.put (wc_scfg wc) (w_store w) (local_record wc rk))
+      (ECmd q match c with
+              | UCFind => CFindNode
+              | UCPut qr _ _ _ => CPutRecord qr
+              | UCProv qr _ => CStartProviding qr
+              | UCGet qr _ => CGetRecord qr (is_hit (snd (kside wc w u)))
+              | UCGetProv rk => CGetProviders (kprov_of wc (known_provs (w_ks w) rk))
+              end dists seeds, w_rt w, ks')
+  | UPutToPeers q qr _ _ _ _ _ given =>
+      let '(t', ps) := rt_filter wc (w_rt w) given in (EPutToPeers q qr ps, t', ks')
+  | UStoreRecord _ _ _ _ => (ENop, w_rt w, ks')
   | UAddKnownPeer p addr =>
-      (ENop, rt_op wc (w_rt w) (V.C14.Model.OAdd (pkey wc p) addr (conn_of (w_st w) p)), w_store w)
-  | UStopProviding _ => (ENop, w_rt w, w_store w)
-  | UFire q rk target =>
-      match fire_due w rk with
-      | Some qr => (ECmd q (CRefresh qr) (dists_of wc target) (seeds_of wc (w_rt w) target), w_rt w, w_store w)
-      | None => (ENop, w_rt w, w_store w)
+      (ENop, rt_op wc (w_rt w) (V.C14.Model.OAdd (pkey wc p) addr (conn_of (w_st w) p)), ks')
+  | UStopProviding _ _ => (ENop, w_rt w, ks')
+  | UFire q rk wait target =>
+      match fire1 wc (age (w_ks w) wait) rk (lrank wc target) with
+      | Some (_, Some qc) =>
+          (ECmd q (CRefresh (qdecode qc)) (dists_of wc target) (seeds_of wc (w_rt w) target), w_rt w, ks')
+      | _ => (ENop, w_rt w, ks')
       end
-  | UInReq id rq =>
-      let e := EFut id (RRead (msg_of_req rq)) in
-      let '(t', s') := side_k wc w e (req_key rq) in
-      (e, t', match rq with
-              | IGetValue rk _ => if inbound_read (w_st w) id then fst (V.C17.Model.get s' rk 0) else s'
-              | _ => s'
-              end)
-  | UEv e => let '(t', s') := side wc w e in (e, t', s')
+  | UAge d => (ETick d, w_rt w, ks')
+  | UInReq id rq => (EFut id (RRead (msg_of_req wc w id rq)), w_rt w, ks')
+  | UEv e => (e, side wc w e, ks')
   end.
 
-(* local providers and refresh timers: put_local_provider (start_providing, and again at every refresh)
-   registers the key with its quorum and arms one more timer; remove_local_provider forgets the key
-   but not its timers; a timer that fires is consumed *)
-Definition prov_side (w : world) (u : uev) : list (N * quorum) * list N :=
+(* the schedule is consistent: the loop has not died in the store (debug_assert of remove_local_provider);
+   only a completed refresh future is taken; explicit time passing stops before the next deadline; in the
+   composed model the requests of remote peers come as UInReq (a message that does not decode touches nothing) *)
+Definition uvalid (wc : wcfg) (w : world) (u : uev) : bool :=
+  negb (V.C17.Ingress.ks_dead (w_ks w)) &&
   match u with
-  | UCmd _ (UCProv qr rk) _ => (aset rk qr (w_prov w), w_timers w ++ [rk])
-  | UStopProviding rk => (adel rk (w_prov w), w_timers w)
-  | UFire _ rk _ =>
-      if nmem rk (w_timers w)
-      then match aget rk (w_prov w) with
-           | Some _ => (w_prov w, rem1 rk (w_timers w) ++ [rk])
-           | None => (w_prov w, rem1 rk (w_timers w))
-           end
-      else (w_prov w, w_timers w)
-  | _ => (w_prov w, w_timers w)
+  | UFire _ rk wait _ =>
+      match take_due (w_clock w + wait) rk (w_timers w) with
+      | Some rest => forallb (fun t => negb (V.C17.Timed.is_due (w_clock w + wait) t)) rest   (* the only one that is due *)
+      | None => false
+      end
+  | UAge d => forallb (fun t => negb (V.C17.Timed.is_due (w_clock w + d) t)) (w_timers w)
+  | UEv (EFut id (RRead m)) =>
+      match m with
+      | MInvalid => true
+      | MAddProvider true => false      (* stored under a key the case does not describe: base mode only *)
+      | _ => negb (inbound_read (w_st w) id)
+      end
+  | _ => true
   end.
 
-(* the schedule is consistent: only an armed timer fires *)
-Definition uvalid (w : world) (u : uev) : bool :=
-  match u with UFire _ rk _ => nmem rk (w_timers w) | _ => true end.
-
-(* what the node answers to a request read from an inbound substream: (record found, closer peers) —
-   RoutingTable::closest of the CURRENT table for the key asked for, the local record if there is one *)
-Definition reply_of (wc : wcfg) (w : world) (u : uev) : option (bool * list N) :=
+(* what the node answers to a request read from an inbound substream: (record found, closer peers,
+   providers as (peer, number of addresses)) — RoutingTable::closest of the CURRENT table for the key asked
+   for, the record / the providers the store serves *)
+Definition reply_of (wc : wcfg) (w : world) (u : uev) : option (bool * list N * list (N * N)) :=
   match u with
   | UInReq id rq =>
       if inbound_read (w_st w) id then
         match rq with
-        | IFindNode target => Some (false, seeds_of wc (w_rt w) target)
-        | IGetValue rk target =>
-            Some (match snd (V.C17.Model.get (w_store w) rk 0) with Some _ => true | None => false end,
-                  seeds_of wc (w_rt w) target)
-        | IGetProviders target => Some (false, seeds_of wc (w_rt w) target)
+        | IFindNode target => Some (false, seeds_of wc (w_rt w) target, [])
+        | IGetValue rk target => Some (is_hit (snd (kside wc w u)), seeds_of wc (w_rt w) target, [])
+        | IGetProviders rk target =>
+            Some (false, seeds_of wc (w_rt w) target,
+                  match snd (kside wc w u) with
+                  | V.C17.Ingress.KProvs l => map (fun x : N * N => (peer_of_pid wc (fst x), snd x)) l
+                  | _ => []
+                  end)
         | _ => None
         end
       else None
@@ -301,9 +390,9 @@ Definition reply_of (wc : wcfg) (w : world) (u : uev) : option (bool * list N) :
   end.
 
 Definition cstep (wc : wcfg) (w : world) (u : uev) : world * list out * bool :=
-  let '(e, t', s') := elab wc w u in
+  let '(e, t', ks') := elab wc w u in
   let '(st', o, ok) := step (wc_g wc) (w_st w) e in
-  (mkW st' t' s' (fst (prov_side w u)) (snd (prov_side w u)), o, ok && uvalid w u).
+  (mkW st' t' ks', o, ok && uvalid wc w u).
 
 Fixpoint crun (wc : wcfg) (w : world) (us : list uev) : world * list out :=
   match us with
@@ -320,4 +409,13 @@ Fixpoint elabs (wc : wcfg) (w : world) (us : list uev) : list ev :=
   end.
 
 Definition w0 (wc : wcfg) (m : list (N * N)) (L : nat) : world :=
-  mkW (st0 m) (V.C14.Model.empty_table L) V.C17.Model.empty_store [] [].
+  mkW (st0 m) (V.C14.Model.empty_table L) V.C17.Ingress.kstate0.
+
+(* the ids the user starts; a refresh future that is taken starts an operation (with an id from the shared
+   counter) only when the key is still provided: `started_by` of the elaborated event decides *)
+Definition ustarted_by (u : uev) : option N :=
+  match u with
+  | UCmd q _ _ | UPutToPeers q _ _ _ _ _ _ _ | UFire q _ _ _ => Some q
+  | UEv e => started_by e
+  | _ => None
+  end.
